@@ -182,8 +182,15 @@ class Ctx(object):
             self._best_size = size
         raise v
 
+    def shrink_expired(self):
+        """True once the shrinking budget of the current search is used up: callers skip the work so that the shrinker's
+        remaining attempts cost nothing and it stops at once."""
+        return self._shrink_deadline is not None and time.time() > self._shrink_deadline
+
     def begin_search(self):
         cap = float(os.environ.get('VERIF_SHRINK_SECONDS', '45' if self.tier == 'quick' else '240'))
+        if os.environ.get('VERIF_NOSHRINK'):
+            cap = 0.0
         self._shrink_cap = cap
         self._shrink_deadline = None
         self._best = None
@@ -243,7 +250,7 @@ def hyp_run(ctx, name, strategy, prop, n, shrink=True):
               print_blob=False)
     @given(strategy)
     def test(case):
-        if harness_errors:
+        if harness_errors or ctx.shrink_expired():
             return
         try:
             prop(case)
